@@ -29,6 +29,10 @@ LAUTH_TRUSTED = [
     "translated from the C++ on every run: LocalAuthMiddleware::process of localauthmiddleware.cpp in the vocabulary of Qhttp/Model/AxPrim.lean (trusted); bridge theorems QhttpBridge.LocalAuth prove that it admits exactly when the value of the configured header is the token byte for byte (name compared up to case) and answers 403 otherwise",
 ]
 
+SRV_TRUSTED = [
+    "translated from the C++ on every run: Server::incomingConnection of server.cpp as the list of things done with the new connection (vocabulary Qhttp/Model/VxPrim.lean; trusted); bridge theorems QhttpBridge.Srv prove that ServerPrivate::process is called at once exactly when no TLS configuration is set (the model's `processed := !tls`), and that with a configuration it is only connected to encrypted(), an error deletes the socket, and the handshake is started with the descriptor and the configuration in place",
+]
+
 SLOT_TRUSTED = [
     "translated from the C++ on every run: QObjectHandler::process of qobjecthandler.cpp in the vocabulary of Qhttp/Model/SxPrim.lean (QMap::contains/value are the model's last-registration lookup, socket->bytesAvailable()/contentLength() what QhttpBridge.Sock proves of the translated socket.cpp, d->invokeSlot and the connect() of the deferred call recorded as actions; trusted); bridge theorems QhttpBridge.Slot prove that process takes the decision of SlotHandler.onHp: 404 / invoke now / invoke at end-of-body, for the registration stored last under exactly the routed name; invokeSlot itself (Qt's meta-object call) is modelled, not translated",
 ]
@@ -97,7 +101,7 @@ PROPS = {
                         "qint64 modelled as Int; theorem no_overflow shows no intermediate leaves 64 bits for magnitudes < 2^62"],
             "rule": "exhaustive cube of (from,to,size) over [-K,K]^3 through the numeric constructor, all strings over {0,7,-,space,x,1} up to length L with five sizes, then boundary-biased numbers (around 2^31, 2^62) through numeric/assignment/copy-with-size/string construction; every accessor and the Content-Range text compared"},
     "C20": {"count": {"quick": 120, "thorough": 3000},
-            "trusted": ["QSslSocket: that clear text cannot complete a handshake, record-level behaviour — observed over loopback with the certificate of /repo/tests, not proved",
+            "trusted": SRV_TRUSTED + ["QSslSocket: that clear text cannot complete a handshake, record-level behaviour — observed over loopback with the certificate of /repo/tests, not proved",
                         "the gate in Server::incomingConnection is modelled by hand (Tls.lean); after the handshake the connection is the socket model of C01-C06"],
             "rule": "a real Server on loopback with and without TLS configuration; clear-text clients sending valid requests, partial / bit-flipped ClientHello records, random bytes, nothing; TLS clients completing the handshake and sending a request; handler/middleware call log, first bytes received by the client and the server's child objects after the client left are compared"},
 }
@@ -171,6 +175,7 @@ PARSER_ALL = ["QhttpBridge.Parser"]
 FS_ALL = ["QhttpBridge.Fs.AbsolutePath", "QhttpBridge.Fs.Process"]
 
 BRIDGE_NEEDS = {
+    "QhttpBridge.Srv": ["Server::incomingConnection"],
     "QhttpBridge.LocalAuth": ["LocalAuthMiddleware::process"],
     "QhttpBridge.Slot": ["QObjectHandler::process"],
     "QhttpBridge.Auth": ["BasicAuthMiddleware::verify", "BasicAuthMiddleware::process"],
@@ -225,5 +230,6 @@ BRIDGES = {
     "C09": ["QhttpBridge.Auth"],
     "C15": ["QhttpBridge.Slot"],
     "C17": ["QhttpBridge.LocalAuth"],
+    "C20": ["QhttpBridge.Srv"],
 }
 ALL_BRIDGE_MODULES = sorted({m for v in BRIDGES.values() for m in v})
